@@ -1085,6 +1085,61 @@ def oracle_C06(inp, meta=None):
     return False, f"{text} round-trips"
 
 
+def _fake_in_subprocess(exprs, hashseed):
+    """repr(fake(S)) for each DSL expression, after Random().set_seed(k), in a fresh interpreter"""
+    import subprocess
+    code = (
+        "import sys, json; sys.path.insert(0, %r)\n"
+        "from uuid import UUID; import datetime\n"
+        "from d42 import schema, optional, fake\n"
+        "from d42.generation import Random\n"
+        "out = []\n"
+        "for k in (0, 42, 'seed'):\n"
+        "    Random().set_seed(k)\n"
+        "    row = []\n"
+        "    for e in %r:\n"
+        "        try:\n"
+        "            row.append(repr(fake(eval(e))))\n"
+        "        except Exception as x:\n"
+        "            row.append('EXC ' + type(x).__name__)\n"
+        "    out.append(row)\n"
+        "print(json.dumps(out))\n") % (os.environ.get("PYVC_REPO", "/repo"), list(exprs))
+    env = dict(os.environ)
+    env["PYTHONHASHSEED"] = str(hashseed)
+    p = subprocess.run([sys.executable, "-c", code], capture_output=True, text=True, env=env, timeout=120)
+    return json.loads(p.stdout.strip().splitlines()[-1]) if p.stdout.strip() else [["NO OUTPUT " + p.stderr[-200:]]]
+
+
+C17_ZOO = ["schema.int.min(0).max(10)", "schema.str.len(8)", "schema.str.alphabet('hello world').len(12)",
+           "schema.str.alphabet('xxyyzz').len(6)", "schema.str.regex('[a-f]{3}-[0-9]+')", "schema.float.precision(2)",
+           "schema.list(schema.bool).len(5)", "schema.dict({'a': schema.int, 'b': schema.str.contains('q')})",
+           "schema.any(schema.int, schema.str, schema.none)", "schema.bytes"]
+
+
+def oracle_C17(inp, meta=None):
+    exprs = list((meta or {}).get("exprs") or C17_ZOO)
+    if "schema" in inp:
+        try:
+            S_ = build(inp["schema"])
+            if "UUID4Schema" not in repr(type(S_)) and "uuid4" not in repr(S_) and "datetime" not in repr(S_) and "date" not in repr(S_):
+                exprs.insert(0, repr(S_))
+        except Unreachable:
+            pass
+    runs = {hs: _fake_in_subprocess(exprs, hs) for hs in (0, 1, 2)}
+    base = runs[0]
+    for hs in (1, 2):
+        if runs[hs] != base:
+            for si, (ra, rb) in enumerate(zip(base, runs[hs])):
+                for e, a, b in zip(exprs, ra, rb):
+                    if a != b:
+                        return True, f"seeded fake({e}) differs between PYTHONHASHSEED=0 and {hs}: {a} vs {b}"
+            return True, "outputs differ between interpreters"
+    again = _fake_in_subprocess(exprs, 0)
+    if again != base:
+        return True, "outputs differ between two runs with the same hash seed"
+    return False, "seeded generation is reproducible for these schemas"
+
+
 _custom_cache = {}
 
 
@@ -1149,8 +1204,260 @@ def oracle_C16(inp, meta=None):
     return False, "custom type is indistinguishable from its inner schema"
 
 
+# ----------------------------------------------------------------------------------- C09 (regex generation)
+SUPPORTED_OPS = {"ANY", "LITERAL", "NOT_LITERAL", "IN", "SUBPATTERN", "MAX_REPEAT", "MIN_REPEAT", "AT", "BRANCH"}
+
+
+def _sre():
+    if sys.version_info >= (3, 11):
+        import re._constants as C
+        import re._parser as P
+    else:
+        import sre_constants as C
+        import sre_parse as P
+    return C, P
+
+
+def _scripted_randoms():
+    """RNG schedules for C09 (`all RNG outcomes: every branch, min and max repeat count, both ends of each range`):
+    strategy k takes element k (mod len) of every choice and alternates the ends of every integer draw."""
+    from d42.generation import Random
+
+    class Scripted(Random):
+        def __init__(self, k: int) -> None:
+            self.k = k
+            self.n = 0
+
+        def random_int(self, start, end):
+            if start > end:
+                raise ValueError("empty range for randint")
+            self.n += 1
+            mode = (self.k + (self.n if self.k >= 4 else 0)) % 4
+            return [start, end, start, min(end, start + 1)][mode]
+
+        def random_choice(self, sequence):
+            if len(sequence) == 0:
+                raise IndexError("Cannot choose from an empty sequence")
+            return sequence[self.k % len(sequence)]
+
+    out = [(f"scripted-{k}", Scripted(k), None) for k in range(0, 104)]
+    for seed in range(8):
+        out.append((f"seed-{seed}", Random(), seed))
+    return out
+
+
+def tree_ops(tree):
+    """names of all opcodes in a parse tree (a SubPattern or list of (op, av))"""
+    C, P = _sre()
+    ops = []
+
+    def walk(nodes):
+        for op, av in nodes:
+            ops.append(str(op))
+            if op is C.IN:
+                for iop, iav in av:
+                    ops.append("IN:" + str(iop) + (":" + str(iav) if iop is C.CATEGORY else ""))
+            elif op is C.SUBPATTERN:
+                walk(av[3])
+            elif op in (C.MAX_REPEAT, C.MIN_REPEAT, getattr(C, "POSSESSIVE_REPEAT", None)):
+                walk(av[2])
+            elif op is C.BRANCH:
+                for b in av[1]:
+                    walk(b)
+            elif op in (C.ASSERT, C.ASSERT_NOT):
+                walk(av[1])
+            elif op is getattr(C, "ATOMIC_GROUP", None):
+                walk(av)
+            elif op is C.GROUPREF_EXISTS:
+                walk(av[1])
+                if av[2] is not None:
+                    walk(av[2])
+    walk(tree)
+    return ops
+
+
+def pattern_supported(pattern: str) -> bool:
+    """the property's supported grammar, decided on CPython's own parse tree"""
+    C, P = _sre()
+    tree = P.parse(pattern)
+    if tree.state.flags & ~(re.UNICODE):
+        return False       # inline flags are not part of the stated grammar
+    for o in tree_ops(tree):
+        if o.startswith("IN:"):
+            parts = o.split(":")
+            if parts[1] == "CATEGORY" and parts[2] not in ("CATEGORY_DIGIT", "CATEGORY_WORD"):
+                return False
+            if parts[1] not in ("LITERAL", "RANGE", "CATEGORY", "NEGATE"):
+                return False
+        elif o not in SUPPORTED_OPS:
+            return False
+    # anchors only at the pattern ends (a mid-pattern anchor is neither in the supported nor in the unsupported list)
+    data = list(tree)
+    for i, (op, av) in enumerate(data):
+        if op is C.AT and av not in (C.AT_BEGINNING, C.AT_BEGINNING_STRING, C.AT_END, C.AT_END_STRING):
+            return False
+        if op is C.AT and av in (C.AT_BEGINNING, C.AT_BEGINNING_STRING) and i != 0:
+            return False
+        if op is C.AT and av in (C.AT_END, C.AT_END_STRING) and i != len(data) - 1:
+            return False
+    inner = [o for o in tree_ops(tree)]
+    if inner.count("AT") != sum(1 for op, _ in data if op is C.AT):
+        return False       # an anchor nested inside a group / repeat / branch
+    return True
+
+
+def unparse_tree(nodes, names) -> str:
+    """regex source for a (decoded) parse tree whose opcodes are *names*; Unreachable for shapes re would not produce"""
+    out = []
+
+    def esc(cp):
+        if not isinstance(cp, int) or isinstance(cp, bool) or not (0 <= cp < 0x110000) or 0xD800 <= cp < 0xE000:
+            raise Unreachable("not a code point")
+        return re.escape(chr(cp))
+
+    def item(op, av):
+        if op == "LITERAL":
+            return esc(av)
+        if op == "RANGE":
+            lo, hi = av
+            if lo > hi:
+                raise Unreachable("bad range")
+            return esc(lo) + "-" + esc(hi)
+        if op == "CATEGORY":
+            m = {"CATEGORY_DIGIT": r"\d", "CATEGORY_WORD": r"\w", "CATEGORY_SPACE": r"\s", "CATEGORY_NOT_DIGIT": r"\D",
+                 "CATEGORY_NOT_WORD": r"\W", "CATEGORY_NOT_SPACE": r"\S"}
+            if av not in m:
+                raise Unreachable("category")
+            return m[av]
+        raise Unreachable("class item " + str(op))
+
+    for op, av in nodes:
+        if op == "LITERAL":
+            out.append(esc(av))
+        elif op == "NOT_LITERAL":
+            out.append("[^" + esc(av) + "]")
+        elif op == "ANY":
+            out.append(".")
+        elif op == "AT":
+            raise Unreachable("anchor position is not part of a node-level replay")
+        elif op == "IN":
+            items = list(av)
+            neg = bool(items) and items[0][0] == "NEGATE"
+            body = "".join(item(o, a) for o, a in (items[1:] if neg else items))
+            if not body:
+                raise Unreachable("empty class")
+            out.append("[" + ("^" if neg else "") + body + "]")
+        elif op == "SUBPATTERN":
+            out.append("(?:" + unparse_tree(av[3], names) + ")")
+        elif op in ("MAX_REPEAT", "MIN_REPEAT"):
+            lo, hi, sub = av
+            inner = unparse_tree(sub, names)
+            q = "{%d,}" % lo if hi in ("MAXREPEAT", 4294967295) or (isinstance(hi, int) and hi >= 4294967295) else "{%d,%d}" % (lo, hi)
+            out.append("(?:" + inner + ")" + q + ("?" if op == "MIN_REPEAT" else ""))
+        elif op == "BRANCH":
+            out.append("(?:" + "|".join(unparse_tree(b, names) for b in av[1]) + ")")
+        else:
+            raise Unreachable("node " + str(op))
+    return "".join(out)
+
+
+def _name_tree(x, names):
+    """decoded counter-model tree (ints from the verifier's opcode table) -> tree of opcode *names*"""
+    if isinstance(x, (list, tuple)) and len(x) == 2 and isinstance(x[0], int) and not isinstance(x[0], bool) \
+            and str(x[0]) in names and isinstance(x, tuple):
+        op = names[str(x[0])]
+        av = x[1]
+        if op in ("IN",):
+            return (op, [_name_item(i, names) for i in av])
+        if op == "SUBPATTERN":
+            return (op, (av[0], av[1], av[2], [_name_tree(n, names) for n in av[3]]))
+        if op in ("MAX_REPEAT", "MIN_REPEAT"):
+            return (op, (av[0], av[1], [_name_tree(n, names) for n in av[2]]))
+        if op == "BRANCH":
+            return (op, (av[0], [[_name_tree(n, names) for n in b] for b in av[1]]))
+        return (op, av)
+    raise Unreachable("not a parse-tree node")
+
+
+def _name_item(x, names):
+    if isinstance(x, tuple) and len(x) == 2 and isinstance(x[0], int) and str(x[0]) in names:
+        op = names[str(x[0])]
+        av = x[1]
+        if op == "CATEGORY":
+            if not isinstance(av, int) or str(av) not in names:
+                raise Unreachable("category code")
+            av = names[str(av)]
+        return (op, av)
+    raise Unreachable("not a class item")
+
+
+def check_pattern(pattern: str, want_index_error: bool = False):
+    """(violated, detail) for one pattern over all scripted RNG schedules"""
+    import random as _r
+    from d42.generation import RegexGenerator
+    try:
+        re.compile(pattern)
+    except re.error:
+        raise Unreachable("pattern does not compile")
+    supported = pattern_supported(pattern)
+    for name, rnd, seed in _scripted_randoms():
+        if seed is not None:
+            _r.seed(seed)
+        try:
+            s = RegexGenerator(rnd).generate(pattern)
+        except ValueError as e:
+            if supported:
+                return True, f"RegexGenerator.generate({pattern!r}) raised {e!r} [{name}] although every construct is supported"
+            continue
+        except IndexError as e:
+            if want_index_error:
+                return True, (f"RegexGenerator.generate({pattern!r}) raised {e!r} [{name}]: the negated class excludes the "
+                              f"generator's whole alphabet, although e.g. {chr(0xe9)!r} matches")
+            continue
+        except RecursionError:
+            continue
+        except Exception as e:
+            return True, f"RegexGenerator.generate({pattern!r}) raised {e!r} [{name}]"
+        if not isinstance(s, str) or re.fullmatch(pattern, s) is None:
+            return True, f"RegexGenerator.generate({pattern!r}) returned {s!r} [{name}], which does not match the pattern"
+    return False, f"generate({pattern!r}) matches (or refuses) under every scripted RNG schedule"
+
+
+def oracle_C09(inp, meta=None):
+    meta = meta or {}
+    if "pattern" in inp:
+        p = build(inp["pattern"])
+        if not isinstance(p, str):
+            raise Unreachable("pattern is not a str")
+        return check_pattern(p, bool(meta.get("expect_index_error")))
+    names = {str(v): k for k, v in (meta.get("sre_const") or {}).items()}
+    if not names:
+        raise Unreachable("no opcode table")
+    fn = (meta.get("function") or "").split(".")[-1]
+    v = build(inp["value"]) if "value" in inp else None
+    if fn == "_generate":
+        node = _name_tree((build(inp["opcode"]), v), names)
+    elif fn == "_generate_pattern":
+        return check_pattern(unparse_tree([_name_tree(n, names) for n in v], names))
+    elif fn == "_generate_not_in":
+        node = ("IN", [("NEGATE", None)] + [_name_item(i, names) for i in v])
+    elif fn == "_get_category_alphabet":
+        node = ("IN", [("CATEGORY", names.get(str(v)) or "?")])
+    else:
+        opname = {"_generate_in": "IN", "_generate_literal": "LITERAL", "_generate_any": "ANY",
+                  "_generate_not_literal": "NOT_LITERAL", "_generate_subpattern": "SUBPATTERN",
+                  "_generate_branch": "BRANCH", "_generate_max_repeat": "MAX_REPEAT",
+                  "_generate_min_repeat": "MIN_REPEAT"}.get(fn)
+        if opname is None:
+            raise Unreachable("no node-level replay for " + fn)
+        code = [k for k, n in names.items() if n == opname][0]
+        node = _name_tree((int(code), v), names)
+    return check_pattern(unparse_tree([node], names))
+
+
+ORACLES.update({"C09": oracle_C09})
 ORACLES.update({"C14": oracle_C14, "C13": oracle_C13, "C15": oracle_C15, "C16": oracle_C16,
-                "C07": oracle_C07, "C06": oracle_C06})
+                "C07": oracle_C07, "C06": oracle_C06, "C17": oracle_C17})
 ORACLES.update({"C10": oracle_C10, "C11": oracle_C11, "C01": oracle_C01, "C04": oracle_C04,
                 "C05": oracle_C05, "C12": oracle_C12})
 
